@@ -9,6 +9,7 @@ same comprehension text in the code and in a contract denotes the same function 
 import ast
 
 import z3
+from .engine import RLIMIT_PER_MS
 
 from . import vals as V
 from .engine import Engine, Path, PathEnd
@@ -223,6 +224,7 @@ def lookup_equiv(kind, terms, params):
     for (k2, terms2, funcs) in _FUNCS.get(sig, []):
         s = z3.Solver()
         s.set("timeout", 3000)
+        s.set("rlimit", RLIMIT_PER_MS * (3000))
         s.add(z3.Not(z3.And([a == b for a, b in zip(terms, terms2)])))
         if s.check() == z3.unsat:
             return funcs
@@ -341,6 +343,7 @@ def build_comprehension(ip, node, g, it, fr):
         EE_at = z3.substitute(err, *([(es[c], seqs[c][jj]) for c in range(m)] + [(idx, jj)]))
         sv = z3.Solver()
         sv.set("timeout", 3000)
+        sv.set("rlimit", RLIMIT_PER_MS * (3000))
         keep_at = z3.substitute(z3.simplify(keep_cond), *([(es[c], seqs[c][jj]) for c in range(m)] + [(idx, jj)]))
         from . import specfun
         q_terms, q_ax = specfun.defuel(list(ip.path.pc) + [jj >= 0, jj < n_len0] + ip.path.instances(jj) + [
